@@ -228,7 +228,14 @@ func (x *executor) wrapGetter(orig gonnx.OpGetter, ctxOf func() *callCtx) gonnx.
 		if err != nil {
 			return op, err
 		}
-		return &proxyOp{Operator: op, ctxOf: ctxOf, idx: idx, typ: opType}, nil
+		// The proxy is only put in front of an operator where the harness needs it: at the node an operator fault
+		// is injected into, and on every node while a violation is being attributed. Everywhere else the tree gets
+		// its own operator object back - a proxy hides optional interfaces an operator may implement (in-place
+		// variants, shape hints ...) and with them whole code paths of the tree under test.
+		if f := ctx.fault; (f != nil && f.Node == idx) || ctx.attrib {
+			return &proxyOp{Operator: op, ctxOf: ctxOf, idx: idx, typ: opType}, nil
+		}
+		return op, nil
 	}
 }
 
